@@ -15,7 +15,7 @@ CLAIMED.update({
    technique="Lean 4 induction proofs over a model regenerated from source + exact-rational differential correspondence", ref="5/C03"),
  'C04': dict(
    text="Lean 4 proofs (all grid sizes, dimensions, axes, rational parameters, both delj settings): trapezoid mass balance of every line of every kernel sweep (mass changes only by dt x absorbing term at the two ends); absorbing terms vanish unless all other coordinates are 0 or all are 1, so every non-corner line conserves mass exactly; hence for any set of non-corner lines with any weights (e.g. a frozen population's interior frequency) the weighted marginal is unchanged by a sweep; a line where another population is at an interior frequency is never a corner line; frozen axes are skipped; injection touches only the unit multi-indices of non-frozen (2-D: non-nomut) populations (generated table decided); without migration and selection the first/last interior rows decouple (a1 = c_{N-2} = 0); the frozen/migration guard expressions of two_pops..five_pops (generated) equal 'some frozen population has a non-zero rate in or out'; the kernels' corner-guard wiring table is decided. Correspondence of full sweeps with flags in exact rationals; frozen marginals, isolated marginals (shared time steps), per-kernel line-mass bookkeeping through recorded kernel calls, injection support/amount and the exhaustive frozen x migration rejection table are evaluated on the real code.",
-   note="Trusted as for C02/C03. NOT proved: the isolated-marginal clause as a whole (marginal of a subset evolves as the subset alone) - its line-level ingredients are proved, the composition over sweeps is validated numerically only (the tabulated/functional bridge is proved in C03).",
+   note="Trusted as for C02/C03. Isolated marginals: the kernel-sweep theorems (axis in S / outside S, any dimension), the injection identity, the composition over sweeps and steps, and the instantiated case d=2, S={1} are proved; instantiating the invariant for every (d,S), d=3..5 (index plumbing) is not done and those cases rest on the sweep-level theorems plus the numerical check; PivotsOk (non-vanishing pivots) is a hypothesis throughout (the tabulated/functional bridge is proved in C03).",
    technique="Lean 4 proofs (telescoping flux sums, generated guard tables) + exact-rational correspondence + recorded-kernel mass bookkeeping", ref="5/C04"),
 })
 CLAIMED.update({
